@@ -392,6 +392,35 @@ def check(ctx):
     if not ok:
         ctx.violation('C02.R4', XER, xd, Model.qual(xd), 'indent_xml is no longer applied conditionally to the finished element tree', stmt='xml indent')
 
+    # the other half: indentation writes white-space into the .text of every element that has children.  A class whose encoder gives its element children therefore never
+    # reads that element's .text when decoding -- with indentation on it is the indentation, not a value.
+    n4 = 0
+    for c in model.mod(XER).classes.values():
+        for en, dn in (('encode', 'decode'),):
+            er, dr = c.find_method(en), c.find_method(dn)
+            if not er or not dr or (er[1]._cls is not c and dr[1]._cls is not c):
+                continue
+            # does the encoder append children to the element it returns?
+            returned = {r_.value.id for r_ in walk_no_nested(er[1]) if isinstance(r_, ast.Return) and isinstance(r_.value, ast.Name)}
+            gives_children = any(isinstance(x_, ast.Call) and isinstance(x_.func, ast.Attribute) and x_.func.attr in ('append', 'extend', 'insert') and isinstance(x_.func.value, ast.Name)
+                                 and x_.func.value.id in returned for x_ in walk_no_nested(er[1])) or \
+                any(isinstance(x_, ast.Call) and ast.unparse(x_.func).endswith('SubElement') and x_.args and isinstance(x_.args[0], ast.Name) and x_.args[0].id in returned
+                    for x_ in walk_no_nested(er[1]))
+            if not gives_children:
+                continue
+            n4 += 1
+            ep = [p_ for p_ in flow.param_names(dr[1]) if p_ != 'self'][:1]
+            reads = [x_ for x_ in walk_no_nested(dr[1]) if isinstance(x_, ast.Attribute) and x_.attr == 'text' and isinstance(x_.ctx, ast.Load) and isinstance(x_.value, ast.Name)
+                     and x_.value.id in ep]
+            ctx.instance('C02.R4', '%s gives its element children; decode does not read the element\'s own text' % c.qname, 'ok' if not reads else 'VIOLATION', node=dr[1], file=XER)
+            for x_ in reads[:1]:
+                ctx.violation('C02.R4', XER, x_, Model.qual(dr[1]),
+                              '%s.encode appends child elements to its element and %s reads `%s`: indent_xml() stores the indentation white-space in the text of every element that has '
+                              'children, so with indentation on the decoder sees "\\n    " where it expects a value -- the indented document does not decode to what was encoded'
+                              % (c.name, Model.qual(dr[1]).split('::')[-1], ast.unparse(x_)), stmt='text of an element with children')
+    if n4 < 3:
+        raise AnalysisError('C02.R4 found only %d XER classes whose encoder appends children' % n4)
+
     # ---- R6: a container that skips the per-element conversion for "transparent" element types (a shortcut keyed on isinstance) may do so
     #      only if the conversion of every class that test accepts -- subclasses included -- is the identity
     ctx.rule('C02.R6', 'a pass-through shortcut keyed on isinstance(<element type>, K) covers only classes whose encode/decode are identities (subclasses included)')
